@@ -413,6 +413,13 @@ func (ex *Exec) sliceSegs(st *State, s *SliceV) ([]Seg, bool) {
 
 // havocAll replaces every mutable heap object by an unknown of its type.
 func (ex *Exec) havocAll(st *State, why string) {
+	if ex.StrictHeap {
+		// a simulation on a fully known heap: once everything is forgotten its verdict can only be "undecided" — stop
+		// at once instead of dragging an unknown heap through the rest of the run
+		ex.unsupported("whole heap forgotten (" + why + ")")
+		ex.Budget = true
+		return
+	}
 	st.note("havoc heap: %s", why)
 	for id, v := range st.heap {
 		if ex.constObj[id] {
@@ -630,4 +637,80 @@ func (ex *Exec) setArrOf(st *State, s *SliceV, a *ArrayV) {
 		return
 	}
 	ex.storePath(st, s.Obj, s.Path, a)
+}
+
+// reachableFrom: the heap objects reachable from a value (through pointers, slices, interfaces, closures, structs).
+func (ex *Exec) reachableFrom(st *State, root Val) map[int]bool {
+	seen := map[int]bool{}
+	var work []int
+	var visit func(v Val)
+	visit = func(v Val) {
+		switch x := v.(type) {
+		case *PtrV:
+			if !x.Nil && !x.Unk && !seen[x.Obj] {
+				seen[x.Obj] = true
+				work = append(work, x.Obj)
+			}
+		case *SliceV:
+			if !x.Nil && !x.Unk && x.Obj >= 0 && !seen[x.Obj] {
+				seen[x.Obj] = true
+				work = append(work, x.Obj)
+			}
+		case *IfaceV:
+			if x.V != nil {
+				visit(x.V)
+			}
+		case *FuncV:
+			for _, b := range x.Bindings {
+				visit(b)
+			}
+		case *StructV:
+			for _, f := range x.Fields {
+				visit(f)
+			}
+		case *ArrayV:
+			for _, sg := range x.Segs {
+				for _, e := range sg.Elems {
+					visit(e)
+				}
+			}
+		case *TupleV:
+			for _, e := range x.Vs {
+				visit(e)
+			}
+		case *StrV:
+			if x.Bytes != nil {
+				visit(x.Bytes)
+			}
+		case *BufV:
+			if x.Data != nil {
+				visit(x.Data)
+			}
+			for _, id := range x.Handed {
+				if !seen[id] {
+					seen[id] = true
+					work = append(work, id)
+				}
+			}
+		case *RdrV:
+			visit(&x.Src)
+		case *MapV:
+			if x.Obj != 0 && !seen[x.Obj] {
+				seen[x.Obj] = true
+				work = append(work, x.Obj)
+			}
+			for _, e := range x.Vals {
+				visit(e)
+			}
+		}
+	}
+	visit(root)
+	for len(work) > 0 {
+		id := work[len(work)-1]
+		work = work[:len(work)-1]
+		if v, ok := st.heap[id]; ok {
+			visit(v)
+		}
+	}
+	return seen
 }
